@@ -7,6 +7,8 @@ kind of failure (format error / panic) on every byte string.
 import JubakoModel.Model.DirLayout
 import JubakoModel.Model.ContentPack
 import JubakoModel.Generated.FuncsParse
+import JubakoModel.Lemmas.Codec
+import JubakoModel.Lemmas.Slice
 
 set_option linter.unusedSimpArgs false
 
@@ -363,5 +365,232 @@ theorem gen_rawLayoutParse (bs : Bytes) :
     have := rawLayout_loop n.toNat rest []
     simp only [List.reverse_nil, List.map_nil] at this
     cases h : Generated.rawLayoutParse_loop rest [] n.toNat <;> simp_all <;> exact this
+
+/-! ### the value of one property of an entry (`PropertyBuilderTrait::create`) -/
+
+/-- **Unsigned integers**: `IntProperty::create` translated on every run, for a property stored in the entry
+    or defaulted, is `decodeProp` of the reader model — whatever the width (the source has special cases for
+    1, 2, 4 and 8 bytes). -/
+theorem gen_intPropertyCreate (stores : Nat → Outcome (ValueStoreTail × Bytes)) (e : Bytes) (off sz : Nat) (nm : Bytes)
+    (dflt : Option Nat) (g : Nat → Nat → Option Nat → Outcome Bytes) :
+    (Generated.intPropertyCreate e off sz dflt none g).map' Val.u = decodeProp stores e ⟨off, nm, .uint sz dflt⟩ := by
+  unfold Generated.intPropertyCreate decodeProp
+  cases dflt with
+  | some d => rfl
+  | none =>
+    simp only [bind]
+    split <;> (cases h : entryLE e off _ <;> first | rfl | (simp [h]; done) | (simp [h] <;> rfl))
+
+/-- **Signed integers**: `SignedProperty::create` — read in the property's width and sign-extended. -/
+theorem gen_signedPropertyCreate (stores : Nat → Outcome (ValueStoreTail × Bytes)) (e : Bytes) (off sz : Nat) (nm : Bytes)
+    (dflt : Option Int) (g : Nat → Nat → Option Nat → Outcome Bytes) :
+    (Generated.signedPropertyCreate e off sz dflt none g).map' Val.s = decodeProp stores e ⟨off, nm, .sint sz dflt⟩ := by
+  unfold Generated.signedPropertyCreate decodeProp
+  cases dflt with
+  | some d => rfl
+  | none =>
+    simp only [bind, Generated.entryLEs]
+    split <;> (cases h : entryLE e off _ <;> first | rfl | (simp [h]; done) | (simp [h] <;> rfl))
+
+theorem takeLE_drop (e : Bytes) (off n : Nat) (hn : 1 ≤ n) :
+    takeLE (e.drop off) n = (entryLE e off n).bind fun v => .ok (v, e.drop (off + n)) := by
+  unfold takeLE entryLE
+  by_cases h : off + n ≤ e.length
+  · have h' : n ≤ (e.drop off).length := by simp; omega
+    simp [h, h', slice, List.drop_drop]
+    omega
+  · have h' : ¬ n ≤ (e.drop off).length := by simp; omega
+    simp [h, h']
+    omega
+
+/-- **Content addresses**: `ContentProperty::create` translated on every run (a sequential parser opened at
+    the property's offset: pack id unless defaulted, then content id) is `decodeProp` of the reader model,
+    for the widths a header can hold. -/
+theorem gen_contentPropertyCreate (stores : Nat → Outcome (ValueStoreTail × Bytes)) (e : Bytes) (off ps cs : Nat) (nm : Bytes)
+    (dflt : Option Nat) (hps : 1 ≤ ps) (hcs : 1 ≤ cs) (hcs4 : cs ≤ 4) :
+    (Generated.contentPropertyCreate (e.drop off) dflt ps cs).map' (fun x => Val.content x.1.1 x.1.2) =
+      decodeProp stores e ⟨off, nm, .content ps cs dflt⟩ := by
+  have hmod : ∀ o, ∀ v, entryLE e o cs = .ok v → v % 4294967296 = v := by
+    intro o v h
+    unfold entryLE at h
+    split at h
+    · simp only [Outcome.ok.injEq] at h
+      subst h
+      apply Nat.mod_eq_of_lt
+      have h1 := leNat_lt (slice e o cs)
+      have h2 := slice_length_le e o cs
+      have : 256 ^ (slice e o cs).length ≤ 256 ^ 4 := Nat.pow_le_pow_right (by omega) (by omega)
+      omega
+    · simp at h
+  unfold Generated.contentPropertyCreate decodeProp
+  cases dflt with
+  | none =>
+    simp only [Outcome.bind_ok, bind, takeLE_drop e off ps hps, Outcome.bind_assoc']
+    cases h1 : entryLE e off ps with
+    | ok pk =>
+      simp only [Outcome.bind_ok, List.drop_drop, takeLE_drop e (off + ps) cs hcs, Outcome.bind_assoc']
+      cases h2 : entryLE e (off + ps) cs with
+      | ok c => simp [hmod _ _ h2]
+      | _ => rfl
+    | _ => rfl
+  | some d =>
+    simp only [Outcome.bind_ok, bind, takeLE_drop e off cs hcs, Outcome.bind_assoc']
+    cases h2 : entryLE e off cs with
+    | ok c => simp [hmod _ _ h2]
+    | _ => rfl
+
+theorem valueStoreGet_length (vs : ValueStoreTail × Bytes) (id sz : Nat) (data : Bytes)
+    (h : valueStoreGet vs id (some sz) = .ok data) : data.length = sz := by
+  obtain ⟨t, d⟩ := vs
+  unfold valueStoreGet at h
+  simp only at h
+  split at h
+  · split at h
+    · simp at h
+    · split at h
+      · rename_i hb
+        simp only [Outcome.ok.injEq] at h
+        subst h
+        exact slice_length _ _ _ hb
+      · simp at h
+  · split at h
+    · rename_i hb
+      simp only [Outcome.ok.injEq] at h
+      subst h
+      exact slice_length _ _ _ hb
+    · simp at h
+
+theorem takeLE_full (data : Bytes) (sz : Nat) (h : data.length = sz) :
+    Generated.unwrapped ((takeLE data sz).bind fun x => .ok x.1) = .ok (leNat data) := by
+  unfold takeLE
+  simp [h.symm, Generated.unwrapped]
+
+/-- **Deported integers** (the entry holds a key into a value store, the store holds the integer):
+    `IntProperty::create` / `SignedProperty::create` translated on every run are `decodeProp` of the reader
+    model, given the store the property was built with. -/
+theorem gen_deportedIntCreate (stores : Nat → Outcome (ValueStoreTail × Bytes)) (vs : ValueStoreTail × Bytes)
+    (e : Bytes) (off sz ks store : Nat) (nm : Bytes) (hs : stores store = .ok vs) (hsz : sz < 256) :
+    (Generated.intPropertyCreate e off sz none (some (ks, store)) (fun _ key size => valueStoreGet vs key size)).map' Val.u =
+      decodeProp stores e ⟨off, nm, .deportedInt false sz store (.inr ks)⟩ := by
+  unfold Generated.intPropertyCreate decodeProp
+  simp only [bind, pure, hs, Outcome.bind_ok, Nat.mod_eq_of_lt hsz]
+  have key : ∀ k, (((entryLE e off k).bind fun r1 =>
+        (valueStoreGet vs r1 (some sz)).bind fun r2 =>
+          (Generated.unwrapped ((takeLE r2 sz).bind fun x => .ok x.1)).bind fun r3 => Outcome.ok r3).map' Val.u) =
+      (entryLE e off k).bind fun key => (valueStoreGet vs key (some sz)).bind fun data =>
+        Outcome.ok (if false = true then Val.s (signExtend (leNat data) sz) else Val.u (leNat data)) := by
+    intro k
+    cases h1 : entryLE e off k with
+    | ok key =>
+      simp only [Outcome.bind_ok]
+      cases h2 : valueStoreGet vs key (some sz) with
+      | ok data => simp [takeLE_full data sz (valueStoreGet_length vs key sz data h2)]
+      | _ => rfl
+    | _ => rfl
+  split <;> exact key _
+
+theorem takeLEs_full (data : Bytes) (sz : Nat) (h : data.length = sz) :
+    Generated.unwrapped ((Generated.takeLEs data sz).bind fun x => .ok x.1) = .ok (signExtend (leNat data) sz) := by
+  unfold Generated.takeLEs takeLE
+  simp [h.symm, Generated.unwrapped]
+
+theorem gen_deportedSignedCreate (stores : Nat → Outcome (ValueStoreTail × Bytes)) (vs : ValueStoreTail × Bytes)
+    (e : Bytes) (off sz ks store : Nat) (nm : Bytes) (hs : stores store = .ok vs) (hsz : sz < 256) :
+    (Generated.signedPropertyCreate e off sz none (some (ks, store)) (fun _ key size => valueStoreGet vs key size)).map' Val.s =
+      decodeProp stores e ⟨off, nm, .deportedInt true sz store (.inr ks)⟩ := by
+  unfold Generated.signedPropertyCreate decodeProp
+  simp only [bind, pure, hs, Outcome.bind_ok, Nat.mod_eq_of_lt hsz]
+  have key : ∀ k, (((entryLE e off k).bind fun r1 =>
+        (valueStoreGet vs r1 (some sz)).bind fun r2 =>
+          (Generated.unwrapped ((Generated.takeLEs r2 sz).bind fun x => .ok x.1)).bind fun r3 => Outcome.ok r3).map' Val.s) =
+      (entryLE e off k).bind fun key => (valueStoreGet vs key (some sz)).bind fun data =>
+        Outcome.ok (if true = true then Val.s (signExtend (leNat data) sz) else Val.u (leNat data)) := by
+    intro k
+    cases h1 : entryLE e off k with
+    | ok key =>
+      simp only [Outcome.bind_ok]
+      cases h2 : valueStoreGet vs key (some sz) with
+      | ok data => simp [takeLEs_full data sz (valueStoreGet_length vs key sz data h2)]
+      | _ => rfl
+    | _ => rfl
+  split <;> exact key _
+
+theorem Outcome.map'_eq_bind {α β : Type} (x : Outcome α) (f : α → β) : x.map' f = x.bind (fun b => .ok (f b)) := by
+  cases x <;> rfl
+
+theorem takeBytes_drop (e : Bytes) (o n : Nat) (ho : o ≤ e.length) :
+    takeBytes (e.drop o) n = if o + n ≤ e.length then .ok (slice e o n, e.drop (o + n)) else .err .format := by
+  unfold takeBytes
+  by_cases h : o + n ≤ e.length
+  · have h' : n ≤ (e.drop o).length := by simp; omega
+    simp [h, h', slice, List.drop_drop]
+    omega
+  · have h' : ¬ n ≤ (e.drop o).length := by simp; omega
+    simp [h, h']
+    omega
+
+theorem entryLE_ok_bound (e : Bytes) (o n v : Nat) (h : entryLE e o n = .ok v) : o + n ≤ e.length := by
+  unfold entryLE at h
+  split at h
+  · assumption
+  · simp at h
+
+/-- **Arrays**: `ArrayProperty::create` translated on every run (length field, inline prefix, key of the
+    remainder in the value store — or the default of the header), followed by the model's
+    `Array::resolve_to_vec`, is `decodeProp` of the reader model, for a property lying inside the entry, a
+    length field of at most 3 bytes (the source asserts it) and a non-empty key. -/
+theorem gen_arrayPropertyCreate (stores : Nat → Outcome (ValueStoreTail × Bytes)) (e : Bytes) (off : Nat) (nm : Bytes)
+    (lenSize : Option Nat) (fixedLen : Nat) (dep : Option (Nat × Nat)) (dflt : Option (Nat × Bytes × Option Nat))
+    (hoff : off ≤ e.length) (hl : ∀ l, lenSize = some l → 1 ≤ l ∧ l ≤ 3) (hd : ∀ ks st, dep = some (ks, st) → 1 ≤ ks) :
+    ((Generated.arrayPropertyCreate (e.drop off) lenSize fixedLen dep dflt).bind fun r =>
+        (resolveArray stores r.1 r.2.1 fixedLen r.2.2).map' Val.arr).Same
+      (decodeProp stores e ⟨off, nm, .array lenSize fixedLen dep dflt⟩) := by
+  unfold Generated.arrayPropertyCreate decodeProp
+  cases dflt with
+  | some d =>
+    obtain ⟨sz, fixed, kid⟩ := d
+    cases dep with
+    | none => simp [bind, pure] <;> same_close
+    | some dd =>
+      obtain ⟨ks, st⟩ := dd
+      cases kid with
+      | none => simp [bind, pure, Generated.unwrapOpt] <;> same_close
+      | some k => simp [bind, pure, Generated.unwrapOpt] <;> same_close
+  | none =>
+    simp only [Outcome.bind_ok, bind, pure]
+    cases lenSize with
+    | none =>
+      simp only [Nat.add_zero, takeBytes_drop e off fixedLen hoff, Outcome.bind_ok]
+      by_cases hb : off + fixedLen ≤ e.length
+      · simp only [hb, if_true, Outcome.bind_ok]
+        cases dep with
+        | none => simp <;> same_close
+        | some dd =>
+          obtain ⟨ks, st⟩ := dd
+          have hks := hd ks st rfl
+          simp only [List.drop_drop, takeLE_drop e (off + fixedLen) ks hks, Outcome.bind_assoc', Outcome.bind_ok]
+          simp only [Outcome.map'_eq_bind]
+          same_close
+      · simp [hb] <;> same_close
+    | some l =>
+      obtain ⟨hl1, hl3⟩ := hl l rfl
+      have hm : l % 256 ≤ 3 := by omega
+      simp only [hm, if_true, takeLE_drop e off l hl1, Outcome.bind_assoc', Outcome.bind_ok]
+      cases h1 : entryLE e off l with
+      | ok sz =>
+        have hb1 := entryLE_ok_bound e off l sz h1
+        simp only [Outcome.bind_ok, takeBytes_drop e (off + l) fixedLen hb1]
+        by_cases hb : off + l + fixedLen ≤ e.length
+        · simp only [hb, if_true, Outcome.bind_ok]
+          cases dep with
+          | none => simp [Outcome.map'_eq_bind] <;> same_close
+          | some dd =>
+            obtain ⟨ks, st⟩ := dd
+            have hks := hd ks st rfl
+            simp only [List.drop_drop, takeLE_drop e (off + l + fixedLen) ks hks, Outcome.bind_assoc', Outcome.bind_ok,
+              Outcome.map'_eq_bind]
+            same_close
+        · simp [hb] <;> same_close
+      | _ => same_close
 
 end Jubako
